@@ -10,11 +10,8 @@ theorem mem_mapId {L : List Lease} {y : Lease} (f : Lease → Lease) (hy : y ∈
   unfold mapId
   exact List.mem_map.2 ⟨y, hy, by simp⟩
 
-theorem validMAC_of_len {m : Bytes} (h : m.length = 6) : validMAC m = true := by
-  simp [validMAC, h]
-
 /-- The address in a positive reply is recorded in the table for that client. -/
-theorem handleDiscover_recorded {c : Conf} {s : State} {mac : Bytes} (h : Inv c s) (hlen : mac.length = 6)
+theorem handleDiscover_recorded {c : Conf} {s : State} {mac : Bytes} (h : Inv c s)
     (hrc : (handleDiscover c mac s).2.rc = 1) :
     ∃ l ∈ (handleDiscover c mac s).1.leases, l.mac = mac ∧ l.ip = (handleDiscover c mac s).2.yi := by
   unfold handleDiscover at hrc ⊢
@@ -25,7 +22,7 @@ theorem handleDiscover_recorded {c : Conf} {s : State} {mac : Bytes} (h : Inv c 
   | none =>
     rw [hf] at hrc
     simp only [] at hrc ⊢
-    have hsp := allocate_spec h hlen (findLease_none hf)
+    have hsp := allocate_spec h (findLease_none hf)
     rcases hal : allocateLease c mac s with ⟨s1, r⟩
     rw [hal] at hsp hrc
     obtain ⟨_, _, _, hor⟩ := hsp
@@ -58,8 +55,7 @@ theorem handleRequest_recorded {O : Oracle} {c : Conf} {s : State} {mac : Bytes}
       rw [(renameLease_frame l _ _).1]
       exact mem_mapId (fun x => { x with host := commitName O l hn s, exp := s.now + c.leaseTime }) hl
 
-theorem handleDecline_recorded {c : Conf} {s : State} {mac : Bytes} {rp : Bool} {rip ci : Nat} (h : Inv c s)
-    (hlen : mac.length = 6) (hrc : (handleDecline c mac rp rip ci s).2.rc = 1)
+theorem handleDecline_recorded {c : Conf} {s : State} {mac : Bytes} {rp : Bool} {rip ci : Nat} (h : Inv c s) (hrc : (handleDecline c mac rp rip ci s).2.rc = 1)
     (hyi : (handleDecline c mac rp rip ci s).2.yi ≠ 0) :
     ∃ l ∈ (handleDecline c mac rp rip ci s).1.leases, l.mac = mac ∧ l.ip = (handleDecline c mac rp rip ci s).2.yi := by
   unfold handleDecline at hrc hyi ⊢
@@ -85,7 +81,7 @@ theorem handleDecline_recorded {c : Conf} {s : State} {mac : Bytes} {rp : Bool} 
         intro y hy
         have := hclean (by unfold rmDynamicLease at hr; rw [hr]) y (by unfold rmDynamicLease at hr; rw [hr]; exact hy)
         rw [← hold]; exact this.1
-      have hsp := allocate_spec hi1 hlen hm1
+      have hsp := allocate_spec hi1 hm1
       rcases hal : allocateLease c mac s1 with ⟨s2, r⟩
       rw [hal] at hsp hrc hyi
       obtain ⟨hi2, _, _, hor⟩ := hsp
@@ -110,7 +106,7 @@ theorem handleRelease_yi (c : Conf) (mac : Bytes) (rp : Bool) (rip ci : Nat) (s 
   rcases releaseLoop c mac (msgIP rp rip ci) s.leases.length 0 { s with stale := [] } with ⟨s1, e⟩
   cases e <;> rfl
 
-theorem step_recorded {O : Oracle} {c : Conf} {s : State} {op : Op} {m : Bytes} (h : Inv c s) (hw : op.wf)
+theorem step_recorded {O : Oracle} {c : Conf} {s : State} {op : Op} {m : Bytes} (h : Inv c s)
     (hm : op.mac? = some m) (hrc : (step O c s op).2.rc = 1) (hyi : (step O c s op).2.yi ≠ 0) :
     ∃ l ∈ (step O c s op).1.leases, l.mac = m ∧ l.ip = (step O c s op).2.yi := by
   have h0 : Inv c { s with stale := [] } := Inv_congr h rfl rfl rfl rfl rfl rfl
@@ -120,25 +116,29 @@ theorem step_recorded {O : Oracle} {c : Conf} {s : State} {op : Op} {m : Bytes} 
   | discover mac =>
     simp only [Op.mac?, Option.some.injEq] at hm
     subst hm
-    have hv := validMAC_of_len hw
+    cases hv : validMAC mac
+    · simp [hv, Reply.drop] at hrc
     simp only [hv, Bool.not_true, Bool.false_eq_true, if_false] at hrc hyi ⊢
-    exact handleDiscover_recorded h0 hw hrc
+    exact handleDiscover_recorded h0 hrc
   | request mac sid rp rip ci hn =>
     simp only [Op.mac?, Option.some.injEq] at hm
     subst hm
-    have hv := validMAC_of_len hw
+    cases hv : validMAC mac
+    · simp [hv, Reply.drop] at hrc
     simp only [hv, Bool.not_true, Bool.false_eq_true, if_false] at hrc hyi ⊢
     exact handleRequest_recorded hrc
   | decline mac rp rip ci =>
     simp only [Op.mac?, Option.some.injEq] at hm
     subst hm
-    have hv := validMAC_of_len hw
+    cases hv : validMAC mac
+    · simp [hv, Reply.drop] at hrc
     simp only [hv, Bool.not_true, Bool.false_eq_true, if_false] at hrc hyi ⊢
-    exact handleDecline_recorded h0 hw hrc hyi
+    exact handleDecline_recorded h0 hrc hyi
   | release mac rp rip ci =>
     simp only [Op.mac?, Option.some.injEq] at hm
     subst hm
-    have hv := validMAC_of_len hw
+    cases hv : validMAC mac
+    · simp [hv, Reply.drop] at hrc
     simp only [hv, Bool.not_true, Bool.false_eq_true, if_false] at hrc hyi ⊢
     exact absurd (handleRelease_yi _ _ _ _ _ _) hyi
   | addStatic mac ip hn => simp [Op.mac?] at hm
@@ -149,7 +149,7 @@ theorem step_recorded {O : Oracle} {c : Conf} {s : State} {op : Op} {m : Bytes} 
 
 /-! ### liveness of DISCOVER -/
 
-theorem handleDiscover_offer {c : Conf} {s : State} {mac : Bytes} (h : Inv c s) (hlen : mac.length = 6)
+theorem handleDiscover_offer {c : Conf} {s : State} {mac : Bytes} (h : Inv c s)
     (hnew : ∀ l ∈ s.leases, l.mac ≠ mac)
     (hfree : ∃ a, c.start ≤ a ∧ a ≤ c.stop ∧ ∀ l ∈ s.leases, l.ip = a → l.static = false ∧ l.exp < s.now) :
     (handleDiscover c mac s).2.rc = 1 ∧ (handleDiscover c mac s).2.typ = 2 ∧
@@ -160,7 +160,7 @@ theorem handleDiscover_offer {c : Conf} {s : State} {mac : Bytes} (h : Inv c s) 
   unfold handleDiscover
   rw [hf]
   simp only []
-  have hsp := allocate_spec h hlen hnew
+  have hsp := allocate_spec h hnew
   rcases hal : allocateLease c mac s with ⟨s1, r⟩
   rw [hal] at hsp
   obtain ⟨_, _, _, hor⟩ := hsp
